@@ -20,13 +20,15 @@ RULE = (
     "Shpitser-Pearl recursion; the reference's 'identifiable' claims are certified numerically in the self-check); "
     "(c) purity: node list, both edge lists and the query sets/objects are snapshotted before and compared after, and a "
     "second call (and a call on an insertion-order-permuted copy, and on the same graph grown incrementally with add_* calls "
-    "interleaved with read-only queries) gives the same verdict / equal estimand. Exhaustive over "
+    "interleaved with read-only queries) gives the same verdict / equal estimand. One case in thirty repeats the query on the graph with 60..2500 extra nodes "
+    "(a chain above or below a node, many parents / children, isolated nodes; no bidirected edges, so the verdict is unchanged) under the interpreter's default "
+    "recursion headroom. Exhaustive over "
     "all ADMGs on 3 labelled nodes x all (X,Y). Non-trivial = graph has >=1 bidirected edge and the query survives "
     "lines 1-3 (a hedge test or c-component decomposition is reached) or the graph has an isolated node / a "
     "non-ancestor treatment; distinct = distinct (graph, X, Y)."
 )
 ASSUMPTIONS = [
-    "graphs bounded to 7 nodes",
+    "graphs bounded to 7 nodes (plus up to 2500 structurally irrelevant extra nodes in the large-graph variant)",
     "reference verdict: two independent set-level procedures that must agree (disagreement = harness error); its positive claims are certified numerically on random models in the self-check",
 ]
 BUDGET = {
@@ -34,6 +36,7 @@ BUDGET = {
     "thorough": dict(examples=4000, shards=16, seconds=2400, exhaustive=True, exhaustive_shards=16),
 }
 ESSENTIAL_LABELS = {t: ["unidentifiable", "identifiable", "isolated-node", "treatment-not-ancestor", "districts>=3"] for t in ("quick", "thorough")}
+BIG_SHAPES = ["chain-above", "chain-below", "parents", "children", "isolated"]
 EXHAUSTIVE_NOTE = "all ADMGs on 3 labelled nodes A,B,C x all ordered pairs of disjoint non-empty (X,Y)"
 
 
@@ -41,7 +44,20 @@ EXHAUSTIVE_NOTE = "all ADMGs on 3 labelled nodes A,B,C x all ordered pairs of di
 def _case(draw, gs):
     g = draw(gs)
     part = draw(gen.labelled_partition(g["nodes"], ["X", "Y"], required=["X", "Y"]))
-    return {"g": g, "X": part["X"], "Y": part["Y"]}
+    c = {"g": g, "X": part["X"], "Y": part["Y"]}
+    if draw(st.integers(0, 29)) == 0:
+        # 'any number of nodes': the same query on the graph with a long tail of extra nodes attached.  Extra ancestors
+        # of an outcome that are not cut off by a treatment cost ID quadratic time (one recursive call per singleton
+        # district), so the long versions of 'chain-above' / 'parents' hang on a treatment and the free ones stay short.
+        shape = draw(st.sampled_from(BIG_SHAPES))
+        if shape in ("chain-above", "parents"):
+            if draw(st.booleans()):
+                c["big"] = {"shape": shape, "n": draw(st.sampled_from([1200, 1600])), "anchor": draw(st.sampled_from(sorted(part["X"])))}
+            else:
+                c["big"] = {"shape": shape, "n": draw(st.sampled_from([60, 120])), "anchor": draw(st.sampled_from(sorted(g["nodes"])))}
+        else:
+            c["big"] = {"shape": shape, "n": draw(st.sampled_from([1200, 2500])), "anchor": draw(st.sampled_from(sorted(g["nodes"])))}
+    return c
 
 
 def strategy(tier):
@@ -203,6 +219,23 @@ def check(case) -> Outcome:
         return fail("incrementally-built-graph-differs-from-from_edges")
     if (r5 is None) != (r1 is None):
         return fail("verdict-depends-on-how-the-graph-object-was-built", one_go=r1 is not None, incremental=r5 is not None)
+    big = case.get("big")
+    if big:
+        # the extra nodes carry no bidirected edge: hedges, and therefore the verdict, are those of the small graph
+        from y0.graph import NxMixedGraph
+
+        from ..y0util import enlarge, user_recursion_limit
+
+        gb = enlarge(g, big["shape"], big["n"], big["anchor"])
+        labels.add("large-graph:" + big["shape"])
+        try:
+            graph_b = NxMixedGraph.from_str_edges(nodes=gb["nodes"], directed=[tuple(e) for e in gb["di"]], undirected=[tuple(e) for e in gb["bi"]])
+            with user_recursion_limit():
+                rb = identify_outcomes(graph_b, xset, yset)
+        except Exception as e:
+            return fail("raised-on-large-graph", big=big, exc=repr(e)[:300])
+        if (rb is not None) != ref:
+            return fail("verdict-differs-on-large-graph", big=big, y0_identifiable=rb is not None)
     out.nontrivial = (bool(g["bi"]) and (not ref or nd >= 2)) or iso or non_anc
     out.labels = sorted(labels)
     return out
